@@ -529,11 +529,12 @@ _SEQ_XSD = """<xs:schema xmlns:xs="http://www.w3.org/2001/XMLSchema">
  <xs:simpleType name="UR2"><xs:restriction base="U"><xs:pattern value="[0-9]{2}"/></xs:restriction></xs:simpleType>
  <xs:simpleType name="L"><xs:list itemType="xs:integer"/></xs:simpleType>
  <xs:simpleType name="LR"><xs:restriction base="L"><xs:length value="2"/></xs:restriction></xs:simpleType>
+ <xs:simpleType name="UR12"><xs:restriction base="UR1"><xs:pattern value="[A-Z0-9]+"/></xs:restriction></xs:simpleType>
  <xs:simpleType name="LD"><xs:list itemType="xs:date"/></xs:simpleType>
  <xs:simpleType name="LQ"><xs:restriction><xs:simpleType><xs:list itemType="xs:QName"/></xs:simpleType><xs:maxLength value="2"/></xs:restriction></xs:simpleType>
  <xs:element name="r"><xs:complexType><xs:sequence>
    <xs:element name="e1" type="UR1"/><xs:element name="e2" type="U"/><xs:element name="e3" type="UR2"/><xs:element name="e4" type="LR"/>
-   <xs:element name="e5" type="LD" minOccurs="0"/><xs:element name="e6" type="LQ" minOccurs="0"/>
+   <xs:element name="e5" type="LD" minOccurs="0"/><xs:element name="e6" type="LQ" minOccurs="0"/><xs:element name="e7" type="UR12" minOccurs="0"/>
  </xs:sequence><xs:attribute name="a1" type="UR2"/><xs:attribute name="a2" type="U"/></xs:complexType></xs:element></xs:schema>"""
 SEQ_VALUES = ['12', 'ABC', 'abc', 'x y', '1 2', '7']
 LD_VALUES = ['2000-01-01', '2000-01-01 2001-02-03Z', ' 1999-12-31  2000-02-29 ', '2000-01-01 x']          # lists of dates
@@ -565,8 +566,17 @@ def _seq_ref(tname, text):
     raise ValueError(tname)
 
 
+def region_union_two_level_patterns(**kw):
+    """known finding C02-union-nested-patterns: the value of e7 matches the outer pattern [A-Z0-9]+ of UR12 but not the
+    pattern [A-Z]+ of its base UR1 (digits only)"""
+    return kw.get("e7") in (0, 5)
+
+
 def pre_seq(fn, **kw):
-    return all(0 <= v < (4 if k in ("e5", "e6") else len(SEQ_VALUES)) for k, v in kw.items())
+    if not all(0 <= v < (4 if k in ("e5", "e6") else len(SEQ_VALUES)) for k, v in kw.items()):
+        return False
+    from engine.known import open_regions
+    return not any(globals()[p](**kw) for p in open_regions(__name__, fn))
 
 
 def h_seq(**kw) -> bool:
@@ -586,8 +596,11 @@ def h_seq(**kw) -> bool:
         ET.SubElement(root, 'e5').text = ld
     if lq is not None:
         ET.SubElement(root, 'e6').text = lq
+    u7 = SEQ_VALUES[pick(kw["e7"], len(SEQ_VALUES))] if "e7" in kw else None
+    if u7 is not None:
+        ET.SubElement(root, 'e7').text = u7
     ns = {'t': 'urn:t'}
-    if ld is not None or lq is not None:
+    if ld is not None or lq is not None or u7 is not None:
         # the list elements: validity and, for the dates, the decoded items (each item is its own lexical form)
         import re
         bad = {e.path for e in sch.iter_errors(root, namespaces=ns)}
@@ -602,6 +615,11 @@ def h_seq(**kw) -> bool:
         if lq is not None:
             ok = len(lq.split()) <= 2
             if ('/r/e6' in bad) == ok:
+                return False
+        if u7 is not None:
+            # a restriction of a restriction of a union: BOTH patterns apply (Datatypes 4.3.4: facets of all steps)
+            ok = _seq_ref("UR1", u7) and re.fullmatch(r'[A-Z0-9]+', u7) is not None
+            if ('/r/e7' in bad) == ok:
                 return False
         return True
     bad_paths = set()
@@ -681,7 +699,7 @@ def obligations(tier, seed):
         out.append({"name": "facet-smt/%s" % f, "engine": "smt", "fn": "smt_facet", "config": {"facet": f, "maxlen": 8}, "timeout": 60,
                     "bound": "all strings of length <= 8 and all facet values >= 0"})
     for version in ("1.0", "1.1"):
-        for grp in (("e1", "e2", "e3"), ("a1", "a2", "e2"), ("e3", "e4", "a2"), ("e5", "e6")):
+        for grp in (("e1", "e2", "e3"), ("a1", "a2", "e2"), ("e3", "e4", "a2"), ("e5", "e6", "e7")):
             out.append({"name": "seq/%s/%s" % (version, "+".join(grp)), "fn": "h_seq", "pre": "pre_seq", "args": [[g, "int"] for g in grp],
                         "config": {"version": version, "seq": True}, "timeout": 300, "twin_timeout": 30,
                         "bound": "values of %s from %r in one document (pattern-restricted unions, a length-restricted list), the other values fixed valid" % (grp, SEQ_VALUES)})
